@@ -20,6 +20,7 @@ class FakeSocket(object):
                                                                  self.world.write_reset):
             # the peer has reset / closed the connection: the kernel refuses the write (and later reads)
             self.world.reset = True
+            self.world.refused_writes += 1
             raise ConnectionResetError('connection reset by peer (simulated)')
         self.sent.append(bytes(data))
         if self.world is not None:
@@ -115,6 +116,7 @@ class World(object):
         self.budget = budget
         self.iterations = 0
         self.prov = None
+        self.refused_writes = 0
         self.fail_sends = False   # sendall raises once the peer has reset / closed the connection
         self.write_reset = False  # the peer's reset has arrived but was not yet noticed by a read
         self.snapshots = []       # per-iteration observations
@@ -250,6 +252,15 @@ def run_provider(script, acceptor=True, max_pdu_length=65536, store_in_file=froz
         prov = ScriptedProvider(store_in_file, get_file_cb, sock, max_pdu_length)
         if accepted_contexts is not None:
             prov.accepted_contexts = accepted_contexts
+
+        class IndicationQueue(queue.Queue):
+            # nobody reads the indications while the script runs (a slow application): a put that would wait for a
+            # reader waits for ever - the world reports it like any other blocking call
+            def put(self, item, block=True, timeout=None):
+                if self.maxsize > 0 and self.qsize() >= self.maxsize:
+                    raise Blocked('put on a full indication queue (%d unread indications)' % self.qsize())
+                return queue.Queue.put(self, item, block, timeout)
+        prov.to_service_user = IndicationQueue(getattr(prov.to_service_user, 'maxsize', 0))
         w.prov = prov
         prov._in_loop = True
         outcome = 'returned'
@@ -271,7 +282,8 @@ def run_provider(script, acceptor=True, max_pdu_length=65536, store_in_file=froz
                 break
         return dict(outcome=outcome, exc=exc, wire=list(w.wire), log=list(w.log), given=given,
                     final=observe_state(prov, w), snapshots=w.snapshots, iterations=w.iterations, frames=list(w.frames),
-                    unread=len(w.pending), script_left=len(w.script), loop_exited=prov._is_killed.is_set())
+                    unread=len(w.pending), script_left=len(w.script), loop_exited=prov._is_killed.is_set(),
+                    refused_writes=w.refused_writes)
     finally:
         fsm.socket, dulprovider.time, dulprovider.select = saved
 
